@@ -249,3 +249,12 @@ func GenSeqOps(rng *rand.Rand, cfg Cfg, g GenOpts, idBase *int) []Op {
 	}
 	return ops
 }
+
+// Epochs0 returns the preload operations of a concurrent plan (executed by the main task before
+// the clients start).
+func (p *Plan) Epochs0() []Op {
+	if len(p.Epochs) == 0 {
+		return nil
+	}
+	return p.Epochs[0]
+}
